@@ -52,6 +52,12 @@ def run(chk):
                 return "a manifest of valid images could not be written: %r" % (r,)
             return None
         (text, back), placed = r[1], r[2]
+        accepted = r[3] if len(r) > 3 else {}
+        for v, arches in accepted.items():
+            for a, idxs in arches.items():
+                have = len(placed.get(v, {}).get(a, []))
+                if have != len(idxs):
+                    return ("cell (%s, %s): %d distinct image objects were accepted by add, the manifest holds %d" % (v, a, len(idxs), have))
         if back[0] != "ok":
             return "the written manifest could not be read back: %r" % (back,)
         (full, comp, dump), again = back[1]
@@ -68,7 +74,7 @@ def run(chk):
 
     core.differential(chk, "ops_images:roundtrip", cases, "roundtrip_images", model_cases=[S.to_model(c) for c in cases],
                       impl_fn="impl_roundtrip", nontrivial=lambda c, r: r[0] == "ok" and sum(len(a) for a in r[2].values()) >= 2,
-                      oracle=oracle, normalise=lambda r: norm_model(r[:2] if (isinstance(r, list) and len(r) == 3) else r))
+                      oracle=oracle, normalise=lambda r: norm_model(r[:2] if (isinstance(r, list) and len(r) in (3, 4)) else r))
     return chk.finish(
         rule="manifests built by 1-9 add calls from pools of 2-6 valid images (all types/formats, null/non-empty volume ids and "
              "implanted md5, 1-2 checksum types, sizes > 2^32, unified images with additional variants, the same object filed in "
